@@ -56,19 +56,26 @@ POOL = [0.0, 0.25, 0.5, 0.75, 1.0]
 
 
 # ----------------------------------------------------------------------------- calls
+def sizes(call):
+    return dict(zip(call["dims"], call["shape"]))
+
+
 def build(call):
-    shape = tuple(call["shape"])
-    dims = list(call["dims"])
-    coords = {d: list(range(n)) for d, n in zip(dims, shape)}
-    f = xr.DataArray(np.array(call["fcst"], dtype=float).reshape(shape), dims=dims, coords=coords)
-    od = list(call.get("obs_dims", dims))
-    oshape = tuple(shape[dims.index(d)] for d in od)
-    o = xr.DataArray(np.array(call["obs"], dtype=float).reshape(oshape), dims=od, coords={d: coords[d] for d in od})
+    """`dims` / `shape` describe the union of the dimensions of the three operands; each operand carries its own
+    subset (`fcst_dims`, `obs_dims`, `weights_dims`; default: all of `dims`)"""
+    size = sizes(call)
+    coords = {d: list(range(n)) for d, n in size.items()}
+
+    def arr(vals, ds):
+        ds = list(ds)
+        return xr.DataArray(np.array(vals, dtype=float).reshape(tuple(size[d] for d in ds)), dims=ds,
+                            coords={d: coords[d] for d in ds})
+
+    f = arr(call["fcst"], call.get("fcst_dims", call["dims"]))
+    o = arr(call["obs"], call.get("obs_dims", call["dims"]))
     w = None
     if call.get("weights") is not None:
-        wd = list(call["weights_dims"])
-        wshape = tuple(shape[dims.index(d)] for d in wd)
-        w = xr.DataArray(np.array(call["weights"], dtype=float).reshape(wshape), dims=wd, coords={d: coords[d] for d in wd})
+        w = arr(call["weights"], call["weights_dims"])
     return f, o, w
 
 
@@ -83,28 +90,41 @@ def red_kwargs(call):
     return kw
 
 
+def data_dims(call):
+    """dimensions of fcst or obs (the ones reduce_dims / preserve_dims speak about), in the order of `dims`"""
+    fd = call.get("fcst_dims", call["dims"])
+    od = call.get("obs_dims", call["dims"])
+    return [d for d in call["dims"] if d in fd or d in od]
+
+
 def preserved(call):
+    """dimensions of the result: the data dimensions that are kept (whether fcst, obs or both carry them), then the
+    dimensions that only the weights carry (never summed)"""
     dims = list(call["dims"])
+    data = data_dims(call)
+    wonly = [d for d in dims if d not in data]
     if call.get("reduce_dims") is not None:
         r = call["reduce_dims"]
-        red = dims if r == "all" else list(r)
-        return [d for d in dims if d not in red]
+        red = data if r == "all" else list(r)
+        return [d for d in data if d not in red] + wonly
     if call.get("preserve_dims") is not None:
         p = call["preserve_dims"]
-        return dims if p == "all" else [d for d in dims if d in p]
-    return []
+        return (data if p == "all" else [d for d in data if d in p]) + wonly
+    return wonly
 
 
 def groups(call):
-    """[(index of the preserved dims, [[f, o, w|None], ...])] in row-major order of the preserved dims"""
+    """[(index of the preserved dims, [[f, o, w|None], ...])] in row-major order of the preserved dims; every operand
+    is broadcast to the union of the dimensions, so a slice along a dimension that only one operand carries pairs
+    that operand's slice with the whole of the others"""
     f, o, w = build(call)
     dims = list(call["dims"])
-    fb, ob = xr.broadcast(f, o)
-    fb = fb.transpose(*dims).values
-    ob = ob.transpose(*dims).values
+    full = xr.DataArray(np.zeros(tuple(call["shape"])), dims=dims, coords={d: list(range(n)) for d, n in sizes(call).items()})
+    fb = xr.broadcast(f, full)[0].transpose(*dims).values
+    ob = xr.broadcast(o, full)[0].transpose(*dims).values
     wb = None
     if w is not None:
-        wb = xr.broadcast(f, w)[1].transpose(*dims).values
+        wb = xr.broadcast(w, full)[0].transpose(*dims).values
     P = preserved(call)
     pidx = [dims.index(d) for d in P]
     out = {}
@@ -126,6 +146,15 @@ def run_impl(call):
         return {"err": core.exc_class(ex)}
     P = preserved(call)
     nt = len(call["thresholds"])
+    want = set(P) | {"threshold"}
+    got = {v: [str(d) for d in r[v].dims] for v in ("POD", "POFD", "AUC")}
+    if set(got["POD"]) != want or set(got["POFD"]) != want or set(got["AUC"]) != set(P):
+        # a kept dimension is missing from (or a reduced one present in) the result: no curve per label to compare
+        with np.errstate(all="ignore"):
+            return {"dims": got, "want_dims": {"POD": sorted(want), "POFD": sorted(want), "AUC": sorted(P)},
+                    "pod": np.asarray(r["POD"].values, dtype=float).tolist(),
+                    "pofd": np.asarray(r["POFD"].values, dtype=float).tolist(),
+                    "auc": np.asarray(r["AUC"].values, dtype=float).tolist()}
     pod = np.asarray(r["POD"].transpose(*P, "threshold").values, dtype=float).reshape(-1, nt)
     pofd = np.asarray(r["POFD"].transpose(*P, "threshold").values, dtype=float).reshape(-1, nt)
     auc = np.asarray(r["AUC"].transpose(*P).values, dtype=float).reshape(-1)
@@ -137,40 +166,102 @@ def trip_json(tr):
 
 
 # ----------------------------------------------------------------------------- generators
-def gen_call(rng, complete=False, malformed=False):
-    nd = rng.choice([1, 2, 2])
-    dims = ["a", "b"][:nd] if rng.random() < 0.8 else ["x", "y"][:nd]
-    shape = [rng.choice([1, 2, 3, 4, 5]) for _ in dims]
-    n = int(np.prod(shape))
+EPS = 2.0 ** -30
+
+
+def hair(rng, v):
+    """a value a hair below / above v, still exactly representable (and inside [0, 1]): v -+ 2^-30 or the neighbouring
+    float; the Lean side receives it as an exact rational, so 'strictly below the threshold' stays strictly below"""
+    opts = []
+    if v > 0:
+        opts += [v - EPS, float(np.nextafter(v, -1.0))]
+    if v < 1:
+        opts += [v + EPS, float(np.nextafter(v, 2.0))]
+    return rng.choice(opts) if opts else v
+
+
+def subset(rng, ds, must=None):
+    k = 1 if (len(ds) == 1 or rng.random() < 0.6) else rng.randrange(1, len(ds) + 1)
+    out = rng.sample(list(ds), k)
+    if must is not None and must not in out:
+        out[rng.randrange(len(out))] = must
+    return out
+
+
+def gen_layout(rng):
+    """(dims, shape, fcst_dims, obs_dims, obs-only dim | None): 'classic' = obs dims within the fcst dims; 'mixed' = obs
+    carries a dimension the forecast lacks (and the forecast possibly one that obs lacks)"""
+    names = ["a", "b", "c"] if rng.random() < 0.8 else ["x", "y", "z"]
+    if rng.random() < 0.68:
+        nd = rng.choice([1, 2, 2])
+        dims = names[:nd]
+        shape = [rng.choice([1, 2, 3, 4, 5]) for _ in dims]
+        od = [rng.choice(dims)] if (nd == 2 and rng.random() < 0.15) else list(dims)
+        return dims, shape, list(dims), od, None
+    s_, f_, o_ = rng.sample(names, 3)
+    pat = rng.choice(["obs-only", "obs-only", "both", "both", "disjoint"])
+    if pat == "obs-only":
+        fd, od = [s_], [s_, o_]
+    elif pat == "both":
+        fd, od = [s_, f_], [s_, o_]
+    else:
+        fd, od = [f_], [o_]
+    rng.shuffle(fd)
+    rng.shuffle(od)
+    dims = [d for d in names if d in fd or d in od]
+    if rng.random() < 0.5:
+        rng.shuffle(dims)
+    shape = [rng.choice([1, 2, 2, 3, 3, 4]) for _ in dims]
+    return dims, shape, fd, od, o_
+
+
+def gen_call(rng, complete=False, malformed=False, layout=None, hairy=None):
+    dims, shape, fd, od = (layout or gen_layout(rng))[:4]
+    obs_only = [d for d in od if d not in fd]
+    dims, shape = list(dims), list(shape)
+    size = dict(zip(dims, shape))
+    n = int(np.prod([size[d] for d in fd]))
     pool = POOL if rng.random() < 0.8 else [0.0, 0.125, 0.5, 0.625, 1.0]
     sub = rng.sample(pool, rng.choice([1, 2, 3, 4, 5]))
     fc = [rng.choice(sub) if rng.random() < 0.9 else NAN for _ in range(n)]
+    if hairy is None:
+        hairy = rng.random() < 0.3
+    if hairy:
+        # forecasts a hair below / above the values that serve as thresholds (never equal unless drawn so)
+        fc = [v if (math.isnan(v) or rng.random() < 0.45) else hair(rng, v) for v in fc]
     if rng.random() < 0.04:
         fc = [NAN] * n
-    call = {"dims": dims, "shape": shape, "fcst": fc}
-    if nd == 2 and rng.random() < 0.15:
-        od = [rng.choice(dims)]
-    else:
-        od = list(dims)
-    on = int(np.prod([shape[dims.index(d)] for d in od]))
+    call = {"dims": dims, "shape": shape, "fcst_dims": list(fd), "fcst": fc}
+    on = int(np.prod([size[d] for d in od]))
     style = rng.random()
     obs = [rng.choice([0.0, 1.0]) if rng.random() < 0.88 else NAN for _ in range(on)]
     if style < 0.08:
         obs = [0.0] * on            # no event at all: POD = 0/0
     elif style < 0.16:
         obs = [1.0] * on            # no non-event
-    call["obs_dims"] = od
+    call["obs_dims"] = list(od)
     call["obs"] = obs
     if rng.random() < 0.45:
-        wd = list(dims) if rng.random() < 0.5 else [rng.choice(dims)]
-        wn = int(np.prod([shape[dims.index(d)] for d in wd]))
+        data = list(dims)
+        wd = rng.choice([data, list(od), list(fd), [rng.choice(data)], [rng.choice(data)]])
+        wd = list(wd)
+        if rng.random() < 0.1:
+            # a dimension that only the weights carry: never summed, one curve per label
+            call["dims"] = dims = dims + ["w"]
+            call["shape"] = shape = shape + [rng.choice([1, 2, 3])]
+            size["w"] = shape[-1]
+            wd = wd + ["w"] if rng.random() < 0.6 else ["w"]
+        wn = int(np.prod([size[d] for d in wd]))
         call["weights_dims"] = wd
         call["weights"] = [rng.choice([0.0, 0.5, 1.0, 1.0, 2.0, 3.0]) if rng.random() < 0.93 else NAN for _ in range(wn)]
     # thresholds
     vals = sorted({v for v in fc if not math.isnan(v)})
     if complete:
         top = (max(vals) if vals else 0.0)
-        ts = sorted(set([0.0] + vals + [top + 0.25]))
+        ts = set([0.0] + vals + [top + 0.25])
+        if hairy:
+            ts |= set(sub)          # the value the forecasts sit a hair away from is a threshold too
+        ts = sorted(ts)
         if rng.random() < 0.5:
             ts = sorted(set(ts + rng.sample([0.125, 0.375, 0.875, 0.25, 0.5], 2)))
         if rng.random() < 0.3:
@@ -180,20 +271,28 @@ def gen_call(rng, complete=False, malformed=False):
     else:
         k = rng.choice([1, 2, 3, 4, 5, 6])
         cand = pool + [0.125, 0.375, 0.875]
-        ts = sorted(rng.choice(cand) if rng.random() < 0.85 else rng.choice(vals or [0.5]) for _ in range(k))
+        ts = [rng.choice(cand) if rng.random() < 0.85 else rng.choice(vals or [0.5]) for _ in range(k)]
+        if hairy:
+            ts = [t if rng.random() < 0.8 else hair(rng, t) for t in ts]
+        ts = sorted(ts)
         if rng.random() < 0.5 and ts[0] != 0.0:
             ts = [0.0] + ts
         call["thresholds"] = ts
         call["check_args"] = rng.random() < 0.7
+    data = data_dims(call)
+    keep = obs_only[0] if (obs_only and rng.random() < 0.6) else None      # bias: the obs-only dimension is kept
     r = rng.random()
-    if r < 0.35:
+    if r < 0.3:
         pass
-    elif r < 0.5:
+    elif r < 0.42:
         call["reduce_dims"] = "all"
-    elif r < 0.65:
-        call["reduce_dims"] = [rng.choice(dims)]
-    elif r < 0.85:
-        call["preserve_dims"] = [rng.choice(dims)]
+    elif r < 0.62:
+        red = subset(rng, data)
+        if keep is not None and len(data) > 1:
+            red = [d for d in red if d != keep] or [rng.choice([d for d in data if d != keep])]
+        call["reduce_dims"] = red
+    elif r < 0.87:
+        call["preserve_dims"] = subset(rng, data, must=keep)
     else:
         call["preserve_dims"] = "all"
     if malformed:
@@ -201,9 +300,9 @@ def gen_call(rng, complete=False, malformed=False):
         call["malformed"] = m
         call["check_args"] = rng.random() < 0.75
         if m == "fcst>1":
-            call["fcst"][rng.randrange(n)] = 1.25
+            call["fcst"][rng.randrange(n)] = rng.choice([1.25, 1.0 + EPS, float(np.nextafter(1.0, 2.0))])
         elif m == "fcst<0":
-            call["fcst"][rng.randrange(n)] = -0.25
+            call["fcst"][rng.randrange(n)] = rng.choice([-0.25, -EPS])
         elif m == "thr>1":
             call["thresholds"] = call["thresholds"] + [1.5]
         elif m == "thr<0":
@@ -221,8 +320,37 @@ def describe(call):
     return dict(call)
 
 
+def obs_only_dims(call):
+    fd = call.get("fcst_dims", call["dims"])
+    return [d for d in call.get("obs_dims", call["dims"]) if d not in fd]
+
+
+def near_threshold(call):
+    """some forecast is strictly off a threshold by less than 1e-6 (the class where a tolerance in >= would show)"""
+    ts = [t for t in call["thresholds"] if not math.isnan(t)]
+    return any(0 < abs(v - t) < 1e-6 for v in call["fcst"] if not math.isnan(v) for t in ts)
+
+
+def tag_inputs(ctx, call):
+    oo = obs_only_dims(call)
+    if oo:
+        ctx.tag("obs-only-dim")
+        if any(d in preserved(call) for d in oo):
+            ctx.tag("obs-only-dim-kept")
+    fd = call.get("fcst_dims", call["dims"])
+    od = call.get("obs_dims", call["dims"])
+    if any(d not in od for d in fd) and oo:
+        ctx.tag("fcst-only-and-obs-only-dim")
+    if call.get("weights") is not None and any(d not in data_dims(call) for d in call["weights_dims"]):
+        ctx.tag("weights-only-dim")
+    if len(call["fcst"]) <= 400 and near_threshold(call):
+        ctx.tag("fcst-a-hair-off-threshold")
+
+
 def nontrivial(res):
-    return "err" not in res and any(not math.isnan(v) for row in res["pod"] + res["pofd"] for v in row)
+    if "err" in res:
+        return False
+    return bool(np.any(~np.isnan(np.asarray(res["pod"], dtype=float))) or np.any(~np.isnan(np.asarray(res["pofd"], dtype=float))))
 
 
 def all_vals(call):
@@ -256,11 +384,17 @@ def correspondence(ctx):
         if c.get("weights") is not None:
             ctx.tag("weights")
         ctx.tag("preserve:" + str(len(preserved(c))))
+        tag_inputs(ctx, c)
         if raises is True or "err" in r:
             ctx.tag("raises")
             if not (raises is True and r.get("err") == "ValueError"):
                 ctx.fail(batch, "correspondence", "roc_curve_data", "exception", describe(c), observed=r,
                          expected={"err": "ValueError"} if raises is True else "a value", tags={"malformed": c.get("malformed")})
+            continue
+        if "dims" in r:
+            ctx.tag("result-dims-mismatch")
+            ctx.fail(batch, "correspondence", "roc_curve_data", "result-dims", describe(c), observed=r["dims"],
+                     expected=r["want_dims"], tags={"obs_only_dim": bool(obs_only_dims(c))})
             continue
         for gi in range(k):
             m = res[s + gi]
@@ -341,7 +475,17 @@ class Checker:
             if "err" in r:
                 self.fail("roc-point-eq-pod-pofd", c, "exception", r, "a value")
                 continue
+            tag_inputs(self.ctx, c)
             ts = c["thresholds"]
+            if "dims" in r:
+                # the curve of each label of a kept dimension must be the curve of that slice alone: here the result
+                # does not even carry the dimension
+                self.fail("roc-point-eq-pod-pofd", c, "result-dims", {"dims": r["dims"], "POD": r["pod"], "POFD": r["pofd"]},
+                          {"dims": r["want_dims"], "kept": preserved(c),
+                           "POD per label": [[list(key), res[s + gi]["pod"]] for gi, (key, _) in enumerate(gs)][:12],
+                           "POFD per label": [[list(key), res[s + gi]["pofd"]] for gi, (key, _) in enumerate(gs)][:12]},
+                          "roc_point_eq_pod_pofd")
+                continue
             start = self.nfail
             for gi, (key, tr) in enumerate(gs):
                 if self.nfail - start >= self.MAX_FAIL_PER_CALL:
@@ -413,16 +557,70 @@ def exhaustive_calls(nmax):
     return calls
 
 
+H = EPS
+HAIR_POOL = [0.25 - H, 0.25, float(np.nextafter(0.5, 0.0)), 0.5 + H]
+HAIR_THRESHOLDS = [0.0, 0.25, 0.5, 0.5 + H, 1.0]
+
+
+def exhaustive_hair_calls(nmax):
+    """every forecast vector over {1/4 - 2^-30, 1/4, nextafter(1/2, 0), 1/2 + 2^-30} (values a hair off a threshold,
+    exactly representable) with every binary observation vector, thresholds {0, 1/4, 1/2, 1/2 + 2^-30, 1}: complete in
+    the Mann-Whitney sense only where the vector avoids the two 'below' values, the points are checked for all"""
+    calls = []
+    for n in range(1, nmax + 1):
+        rows_f, rows_o = [], []
+        for fs in itertools.product(HAIR_POOL, repeat=n):
+            for os_ in itertools.product([0.0, 1.0], repeat=n):
+                rows_f += list(fs)
+                rows_o += list(os_)
+        m = len(rows_f) // n
+        calls.append({"dims": ["a", "b"], "shape": [m, n], "fcst": rows_f, "obs_dims": ["a", "b"], "obs": rows_o,
+                      "thresholds": list(HAIR_THRESHOLDS), "check_args": n % 2 == 1, "preserve_dims": ["a"]})
+        # the same vectors with every value of the vector among the thresholds (Mann-Whitney applies to every row)
+        calls.append(dict(calls[-1], thresholds=sorted(set(HAIR_THRESHOLDS + HAIR_POOL))))
+    return calls
+
+
+def dims_sweep_calls(rng):
+    """every layout in which obs carries a dimension the forecast lacks x every reduce_dims / preserve_dims request
+    over the data dimensions (random values, with and without weights)"""
+    calls = []
+    layouts = [(["s", "o"], [3, 2], ["s"], ["s", "o"]), (["o", "s"], [2, 3], ["s"], ["o", "s"]),
+               (["s", "f", "o"], [2, 2, 3], ["s", "f"], ["o", "s"]), (["f", "o"], [3, 2], ["f"], ["o"]),
+               (["o", "f", "s"], [2, 1, 3], ["f", "s"], ["s", "o"])]
+    for dims, shape, fd, od in layouts:
+        reqs = [{}, {"reduce_dims": "all"}, {"preserve_dims": "all"}]
+        for k in range(1, len(dims) + 1):
+            for sub in itertools.combinations(dims, k):
+                reqs.append({"reduce_dims": list(sub)})
+                reqs.append({"preserve_dims": list(sub)})
+        for rq in reqs:
+            c = gen_call(rng, complete=rng.random() < 0.5, layout=(dims, shape, fd, od), hairy=False)
+            c = {k: v for k, v in c.items() if k not in ("reduce_dims", "preserve_dims")}
+            c.update(rq)
+            calls.append(c)
+    return calls
+
+
 def oracle(ctx, boost):
     rng = ctx.rng
     k = 5 if boost else 1
     ch = Checker(ctx)
     calls = [gen_call(rng, complete=rng.random() < 0.5) for _ in range(ctx.n(250, 6000) * k)]
+    calls += [gen_call(rng, complete=rng.random() < 0.5, hairy=True) for _ in range(ctx.n(60, 1200) * k)]
+    calls += dims_sweep_calls(rng)
     ch.run(calls)
     nmax = 5 if (ctx.thorough or boost) else 3
     ctx.exhaustive.append(f"all forecast vectors over the pool {{0,1/4,1/2,1}} x all binary obs vectors, n <= {nmax}, "
                           "thresholds {0,1/4,1/2,1,5/4}: points, monotonicity, trapezoid, Mann-Whitney")
     ch.run(exhaustive_calls(nmax))
+    hmax = 4 if (ctx.thorough or boost) else 3
+    ctx.exhaustive.append(f"all forecast vectors over {{1/4 - 2^-30, 1/4, nextafter(1/2,0), 1/2 + 2^-30}} x all binary obs "
+                          f"vectors, n <= {hmax}, thresholds {{0,1/4,1/2,1/2 + 2^-30,1}} and those plus the pool: a forecast a "
+                          "hair below a threshold is not an event")
+    ch.run(exhaustive_hair_calls(hmax))
+    ctx.exhaustive.append("5 layouts where obs carries a dimension the forecast lacks x every reduce_dims / preserve_dims "
+                          "subset of the data dimensions: one curve per label of every kept dimension")
 
 
 def revive(o):
